@@ -255,7 +255,21 @@ def obtain_deliver(ctx, rng, n):
                 if obj != before or "local-change" in classic.obtain(r):
                     ctx.violation("C03/deliver-shares-state", "copies share state", dict(obj=repr(obj)))
             ctx.count("obtain_deliver")
-            del r
+            # a tuple mixing values and references crosses the wire as a real tuple holding proxies: obtain() of it must
+            # still be a copy all the way down, and obtain() of something already local must be a copy as well
+            mixed = conn.eval("(1, [2, 3], ('x', {'k': [4]}))")
+            got = classic.obtain(mixed)
+            if got != (1, [2, 3], ("x", {"k": [4]})) or is_netref(got[1]) or is_netref(got[2][1]):
+                ctx.violation("C03/obtain-mixed-tuple", "obtain() of a tuple holding references is not an equal local copy: %r" % (got,), dict(obj=repr(obj)))
+            else:
+                got[1].append("local-change")
+                if len(mixed[1]) != 2:
+                    ctx.violation("C03/obtain-shares-state", "changing an obtained tuple's list changed the remote list", dict(obj=repr(obj)))
+            loc = [1, [2]]
+            cp = classic.obtain(loc)
+            if cp != loc or cp is loc or cp[1] is loc[1]:
+                ctx.violation("C03/obtain-local-not-copied", "obtain() of a local object is not an equal, independent copy", dict(obj=repr(obj)))
+            del r, mixed, got
     except BaseException as e:
         ctx.violation("C03/obtain-deliver-aborted/%s" % type(e).__name__, "obtain/deliver aborted: %r" % (e,))
     conn = None
